@@ -187,7 +187,7 @@ func (s *Solver) emitDef(t *Term) {
 	case OpSExt:
 		fmt.Fprintf(&sb, "((_ sign_extend %d) %s)", t.w-t.args[0].w, s.sym(t.args[0]))
 	case OpTable:
-		fmt.Fprintf(&sb, "(select tbl%d %s)", t.c, s.sym(t.args[0]))
+		fmt.Fprintf(&sb, "(tbl%d %s)", t.c, s.sym(t.args[0]))
 	default:
 		sb.WriteString("(" + opNames[t.op])
 		for _, a := range t.args {
@@ -208,18 +208,23 @@ func (s *Solver) ensureTables() {
 	s.popTo(0)
 	for id := s.nTables; id < len(TS.tables); id++ {
 		tb := TS.tables[id]
-		s.send(fmt.Sprintf("(declare-const tbl%d (Array (_ BitVec %d) (_ BitVec %d)))", id, tb.iw, tb.w))
-		var sb strings.Builder
-		for i, v := range tb.vals {
-			fmt.Fprintf(&sb, "(assert (= (select tbl%d %s) %s))", id, constStr(tb.iw, uint64(i)), constStr(tb.w, v))
-			if i%64 == 63 {
-				s.send(sb.String())
-				sb.Reset()
+		// a constant table is a function of its index bits: balanced ite tree (bit-blasts well)
+		nb := uint8(1)
+		for (1 << nb) < len(tb.vals) {
+			nb++
+		}
+		var build func(lo, hi int, bit int) string
+		build = func(lo, hi int, bit int) string {
+			if lo >= len(tb.vals) {
+				return constStr(tb.w, 0)
 			}
+			if bit < 0 {
+				return constStr(tb.w, tb.vals[lo])
+			}
+			mid := lo + (1 << uint(bit))
+			return fmt.Sprintf("(ite (= ((_ extract %d %d) i) #b1) %s %s)", bit, bit, build(mid, hi, bit-1), build(lo, mid, bit-1))
 		}
-		if sb.Len() > 0 {
-			s.send(sb.String())
-		}
+		s.send(fmt.Sprintf("(define-fun tbl%d ((i (_ BitVec %d))) (_ BitVec %d) %s)", id, tb.iw, tb.w, build(0, 1<<nb, int(nb)-1)))
 	}
 	s.nTables = len(TS.tables)
 }
